@@ -9,8 +9,10 @@ CONSTANTS
   NVals <- GenNVals
   UVals <- GenUVals
   Presentations <- GenPres
+  ForeignForms <- NoForms
+  EntityForms <- NoForms
   Starts <- StartsQuick
   MaxLen = 4
   MaxSigns = 2
-INVARIANTS TypeOK Complete CompleteNet Sound SoundTamper OneKey SignPreserves UncoveredFree EditsKeepSignatures Emit
+INVARIANTS TypeOK Complete CompleteNet Sound SoundTamper OneKey SignPreserves UncoveredFree EditsKeepSignatures ForeignEntryLocal ForeignEntityLocal FormsIrrelevant Emit
 CHECK_DEADLOCK FALSE
